@@ -33,6 +33,10 @@ class Future(IBlockingDeref[T], IPending):
         try:
             return self._future.result(timeout=timeout)
         except _TimeoutError:
+            # On Python 3.11+ this is the builtin TimeoutError, which the body itself
+            # may have raised. Only an unfinished future means the wait timed out.
+            if self._future.done():
+                return self._future.result(timeout=0)
             return timeout_val
 
     def done(self) -> bool:
